@@ -105,7 +105,8 @@ structure Apk where
 /-- `APKExpanded` -/
 structure Expanded where
   sig : Option Bytes
-  control : Bytes        -- content of ControlFile
+  control : Bytes        -- ControlFS: the control section held in memory (.PKGINFO is read from here)
+  controlFile : Bytes    -- content of ControlFile (scripts / triggers are read from here)
   data : Bytes           -- content of PackageFile
   controlHash : Digest   -- ControlHash: computed on a fetch, the *expected* checksum on a cache hit
   dataHash : Digest      -- PackageHash: computed on a fetch, the decoded `datahash` on a cache hit
@@ -121,7 +122,7 @@ def expand (L : Lib) (a : Apk) : Except Err Expanded :=
   | none => .error .decode
   | some es =>
     if checkSums L es then
-      .ok { sig := a.sig, control := a.control, data := a.data,
+      .ok { sig := a.sig, control := a.control, controlFile := a.control, data := a.data,
             controlHash := L.sha1 a.control, dataHash := L.sha256 a.data, files := es }
     else .error .fileSum
 
@@ -143,9 +144,19 @@ structure Cache where
   dat : List (Text × Bytes) := []     -- `<name>.dat.tar.gz`
   deriving DecidableEq, Repr
 
+/-- the checksum string of an `InstallablePackage` (`Q1`+base64 of a SHA-1): what it denotes, and whether it
+carries the `Q1` prefix — `cachedPackage` insists on the prefix, `verifyExpanded` also accepts the bare base64
+form (apko's own tests hand that in) -/
+structure Want where
+  digest : Option Digest      -- `none`: the base64 payload does not decode
+  q1 : Bool
+  deriving DecidableEq, Repr
+
+/-- the digest `cachedPackage` looks up (`none`: "unexpected checksum" / base64 error → a miss) -/
+def Want.key (w : Want) : Option Digest := if w.q1 then w.digest else none
+
 /-- `cachedPackage`: look the control section up by the *expected* checksum (index / lock), the data section by
-the `datahash` that control section records; any failure is a miss.  `expected = none` models a checksum string
-that is not `Q1`+base64. -/
+the `datahash` that control section records; any failure is a miss. -/
 def cachedPackage (L : Lib) (expected : Option Digest) (c : Cache) : Option Expanded :=
   match expected with
   | none => none
@@ -168,11 +179,11 @@ def cachedPackage (L : Lib) (expected : Option Digest) (c : Cache) : Option Expa
               match L.untarData data with
               | none => none
               | some files =>
-                some { sig := lookup h c.sig, control := control, data := data,
+                some { sig := lookup h c.sig, control := control, controlFile := control, data := data,
                        controlHash := h, dataHash := dhd, files := files }
 
 /-- `cachePackage`: advertise the three members under their computed hashes and continue with whatever the
-names now resolve to -/
+names now resolve to (ControlFile, PackageFile and the re-created TarFS; ControlFS stays the in-memory one) -/
 def cachePackage (L : Lib) (e : Expanded) (c : Cache) : Except Err (Expanded × Cache) :=
   let ctl := advertise e.controlHash e.control c.ctl
   let sig := match e.sig with
@@ -183,7 +194,7 @@ def cachePackage (L : Lib) (e : Expanded) (c : Cache) : Except Err (Expanded × 
   | some control, some data =>
     match L.untarData data with
     | some files =>
-      .ok ({ e with control := control, data := data, files := files,
+      .ok ({ e with controlFile := control, data := data, files := files,
                     sig := if e.sig.isSome then lookup e.controlHash sig else none },
            { ctl := ctl, sig := sig, dat := dat })
     | none => .error .cache
@@ -210,9 +221,9 @@ def verifyExpanded (L : Lib) (expected : Option Digest) (e : Expanded) : Except 
 
 /-- `expandPackage`.  `verify = false` is the pinned algorithm (F05a/F05b), `verify = true` the repaired one.
 `cache = none`: no cache configured. `fetched = none`: the fetch failed / the stream does not split. -/
-def expandPackageWith (verify : Bool) (L : Lib) (expected : Option Digest) (cache : Option Cache)
+def expandPackageWith (verify : Bool) (L : Lib) (expected : Want) (cache : Option Cache)
     (fetched : Option Apk) : Except Err (Expanded × Option Cache) :=
-  match cache.bind (cachedPackage L expected) with
+  match cache.bind (cachedPackage L expected.key) with
   | some e => .ok (e, cache)
   | none =>
     match fetched with
@@ -221,7 +232,7 @@ def expandPackageWith (verify : Bool) (L : Lib) (expected : Option Digest) (cach
       match expand L a with
       | .error x => .error x
       | .ok e =>
-        match (if verify then verifyExpanded L expected e else .ok ()) with
+        match (if verify then verifyExpanded L expected.digest e else .ok ()) with
         | .error x => .error x
         | .ok () =>
           match cache with
@@ -234,7 +245,7 @@ def expandPackageWith (verify : Bool) (L : Lib) (expected : Option Digest) (cach
 namespace Impl
 /-- does today's `expandPackage` call `verifyExpanded` between `ExpandApk` and `cachePackage`?
 (tied to the regenerated fact `Generated.expandPackageVerifies`) -/
-def verifies : Bool := false
+def verifies : Bool := true
 /-- what the Go code does today -/
 def expandPackage := expandPackageWith verifies
 /-- the pinned algorithm before the repair (F05a/F05b) -/
@@ -269,7 +280,7 @@ each with its own cache directory -/
 
 structure PkgReq where
   key : Text                   -- cache directory of the package (derived from its URL)
-  expected : Option Digest     -- checksum recorded by the index / lock file
+  expected : Want              -- checksum recorded by the index / lock file
   fetched : Option Apk         -- what the repository serves under the package URL
   deriving DecidableEq, Repr
 
@@ -345,7 +356,7 @@ def FilesRecorded (L : Lib) (es : List Entry) : Prop :=
   ∀ f ∈ installable es, f.kind = .reg → ∃ h, f.recorded = .sum h ∧ L.sha1 f.body = h
 
 def Authentic (L : Lib) (expected : Option Digest) (e : Expanded) : Prop :=
-  ControlMatches L expected e.control ∧ DataMatches L e.control e.data ∧
+  ControlMatches L expected e.control ∧ ControlMatches L expected e.controlFile ∧ DataMatches L e.control e.data ∧
   L.untarData e.data = some e.files ∧ FilesChecked L e.files
 
 /-- cache invariant ("a name that resolves holds content with that hash", and data sections in the cache
@@ -381,7 +392,7 @@ def filesOk (L : Lib) (data : Bytes) (needRecords : Bool) : Bool :=
 /-- the bytes that would be used for a package: the cache entry the expected checksum names (if the cache is
 on and the entry is complete), else what the repository serves -/
 def candidate (L : Lib) (p : PkgReq) (cache : Option Cache) : Option (Bytes × Bytes) :=
-  match cache.bind (cachedPackage L p.expected) with
+  match cache.bind (cachedPackage L p.expected.key) with
   | some e => some (e.control, e.data)
   | none => p.fetched.map fun a => (a.control, a.data)
 
@@ -390,7 +401,7 @@ def pkgVerdict (L : Lib) (kind : OpKind) (p : PkgReq) (cache : Option Cache) : S
   match candidate L p cache with
   | none => "fetch"
   | some (control, data) =>
-    if !controlOk L p.expected control then "control"
+    if !controlOk L p.expected.digest control then "control"
     else if dataClass L control data = 2 then "data"
     else if !filesOk L data (kind = .build) then "files"
     else if dataClass L control data = 1 then "emptyhash"
